@@ -760,16 +760,23 @@ func runGen(cfg Config, args []string, prop string) int {
 	if len(args) >= 2 && args[0] == "replay" {
 		return ReplayCase(prop, args[1], func(c GenCase) CaseResult { return execGen(env, c, prop) })
 	}
-	n := cfg.N(64, 1600)
-	b := &Batch[GenCase]{Property: prop, Level: level, Cfg: cfg, Env: env, N: n,
+	n := cfg.N(96, 1600)
+	// C10: the misfit family is cheap (only the generator runs) and is covered
+	// systematically: every misfit kind x {0,1,2 additional arguments}, repeated
+	nMisfit := 0
+	if prop == "C10" {
+		nMisfit = cfg.N(48, 480)
+	}
+	b := &Batch[GenCase]{Property: prop, Level: level, Cfg: cfg, Env: env, N: n + nMisfit,
 		Gen: func(i int) GenCase {
 			r := sim.Derive(cfg.Seed, "gensim", prop, i)
 			kind := "normal"
 			switch {
+			case i >= n:
+				j := i - n
+				kind = fmt.Sprintf("misfit=%s,%d", gensim.MisfitKinds[j%len(gensim.MisfitKinds)], (j/len(gensim.MisfitKinds))%3)
 			case prop == "C07" && r.Intn(100) < 15:
 				kind = "noerr"
-			case prop == "C10" && r.Intn(100) < 25:
-				kind = "misfit"
 			}
 			w, m := gensim.Gen(r, kind)
 			return GenCase{World: w, Meta: m}
@@ -789,7 +796,7 @@ func runGen(cfg Config, args []string, prop string) int {
 	} else {
 		b.Rule = "gensim worlds (shared with C07): methods with :preprocess/:postprocess hooks over destination by pointer/value x source by pointer/value x with/without error x declaring the additional parameters or not x local or imported (blank-imported package) x style return/arg x pointer/value operands x receiver x 0-2 additional arguments; " +
 			"by-pointer preprocess stubs write sentinels into every destination field; every hook records pointer identities and JSON snapshots of its operands. Oracle on the fault-free history: exactly once, pre first / post last, pre sees the destination as on entry, post sees the final value, own pointers, source and additional arguments as passed, " +
-			"and the sentinel differential against the hook-less twin of the same method. 25% of the worlds carry one hook that cannot fit its method (8 misfit kinds) and must be rejected. distinct_nontrivial counts distinct (method shape, pre-hook shape, post-hook shape, operand set) and (misfit kind, method shape) tuples."
+			"and the sentinel differential against the hook-less twin of the same method. A second family covers the 8 kinds of hooks that cannot fit their method x {0,1,2 additional arguments} systematically; each must be rejected. distinct_nontrivial counts distinct (method shape, pre-hook shape, post-hook shape, operand set) and (misfit kind, method shape) tuples."
 		b.Assume = []string{":reverse is not generated (which operand a hook sees under :reverse is not documented)", "a panic exit of the generator counts as 'rejected' for misfit hooks (that it should be a diagnostic is C14)",
 			"a compiler diagnostic on a hook call line of the generated file is a violation of 'passed by pointer or by value exactly as the hook declares'"}
 		b.Required = []string{"n:hook_histories_checked", "n:sentinel_differentials", "n:misfit_hooks_tried"}
